@@ -1,5 +1,6 @@
 /- Line-protocol driver: one case per input line, one canonical output line per case. -/
 import OPModel.Drive.C19
+import OPModel.Drive.C06
 
 open OP
 
@@ -7,6 +8,8 @@ def handle (line : String) : String :=
   match tokens line with
   | "stream" :: args => Drive.stream Gen.isoOffset args
   | "coll" :: args => Drive.coll args
+  | "pinch" :: args => Drive.pinch args
+  | "pincht" :: args => Drive.pincht args
   | _ => "bad-op"
 
 partial def loop (h : IO.FS.Stream) (out : IO.FS.Stream) : IO Unit := do
